@@ -21,8 +21,8 @@ class C35(EngineProp):
     liveness = False
 
     def strategy(self, tier):
-        strict = genwf.program_strategy(collect=True, waits=True, retries=True, ask=True)
-        early = genwf.program_strategy(collect=True, waits=True, retries=True, ask=True, stop_mode="any", cancel=True, timeouts=True)
+        strict = genwf.program_strategy(collect=True, waits=True, retries=True, ask=True, ask_consumer=True)
+        early = genwf.program_strategy(collect=True, waits=True, retries=True, ask=True, ask_consumer=True, stop_mode="any", cancel=True, timeouts=True)
         return st.one_of(strict, strict, early)
 
     def oracle(self, spec, rec, r: CaseResult) -> None:
@@ -90,6 +90,8 @@ class C35(EngineProp):
                 r.v("input_required_publish_count", got=seen.get(u, 0))
         if returned:
             r.classes.append("ask_returned")
+            if any("Ask" in s["accepts"] or any(a[0] == "wait" and a[1] == "Ask" for acts in s["acts"].values() for a in acts) for s in spec["steps"]):
+                r.classes.append("ask_returned_and_consumed_inside")
         if n_prep:
             r.classes.append("preparing")
         r.nontrivial = n_prep > 0 and max_par >= 2
